@@ -109,6 +109,7 @@ type Obs struct {
 	TokenID   uint32
 	TokenIdx  int // index into Tokens of the key set that verified it
 	Len       int
+	Body      int // body bytes this chunk carried (after removing padding and signature)
 	At        time.Time
 }
 
@@ -314,7 +315,7 @@ func (c *Channel) ReadMsg() (*Msg, error) {
 			if err != nil {
 				return nil, err
 			}
-			o := Obs{MsgType: "OPN", ChunkType: k.ChunkType, Seq: k.Seq, ReqID: k.ReqID, Len: len(f.Raw), At: time.Now(), TokenIdx: -1}
+			o := Obs{MsgType: "OPN", ChunkType: k.ChunkType, Seq: k.Seq, ReqID: k.ReqID, Len: len(f.Raw), Body: len(k.Body), At: time.Now(), TokenIdx: -1}
 			c.rmu.Lock()
 			c.Log = append(c.Log, o)
 			c.rmu.Unlock()
@@ -326,7 +327,7 @@ func (c *Channel) ReadMsg() (*Msg, error) {
 			if err != nil {
 				return nil, err
 			}
-			o := Obs{MsgType: f.Type, ChunkType: k.ChunkType, Seq: k.Seq, ReqID: k.ReqID, TokenID: k.TokenID, TokenIdx: idx, Len: len(f.Raw), At: time.Now()}
+			o := Obs{MsgType: f.Type, ChunkType: k.ChunkType, Seq: k.Seq, ReqID: k.ReqID, TokenID: k.TokenID, TokenIdx: idx, Len: len(f.Raw), Body: len(k.Body), At: time.Now()}
 			c.rmu.Lock()
 			c.Log = append(c.Log, o)
 			m := c.partial[k.ReqID]
